@@ -151,10 +151,7 @@ impl<M: MovingAverageConstructor> AverageDirectionalIndexInstance<M> {
 		let prev_candle = self.window.push(candle);
 		let true_range = self.tr_ma.next(&candle.tr_close(self.prev_close));
 
-		if true_range == 0.0 {
-			return (0.0, 0.0);
-		}
-
+		// the state must advance on every candle, also when the averaged true range is zero
 		self.prev_close = candle.close();
 
 		let (du, dd) = (
@@ -167,6 +164,10 @@ impl<M: MovingAverageConstructor> AverageDirectionalIndexInstance<M> {
 
 		let plus_di_value = self.plus_di.next(&plus_dm); // +DI
 		let minus_di_value = self.minus_di.next(&minus_dm); // -DI
+
+		if true_range == 0.0 {
+			return (0.0, 0.0);
+		}
 
 		(plus_di_value / true_range, minus_di_value / true_range)
 	}
